@@ -28,7 +28,7 @@ fn exec(t: &[String]) -> Option<String> {
     let l = c.h.build();
     let mut w = W::new();
     w.n(c.qs.len());
-    for (s, e) in &c.qs { w.n(l.count(*s, *e)).n(l.find(*s, *e).count()); }
+    for (s, e) in &c.qs { w.n(l.count(*s, *e)).n(drain_mode(l.find(*s, *e), next_mode()).len()); }
     Some(w.join())
 }
 
